@@ -2,6 +2,7 @@
 import glob, json, os, shutil
 import vlib
 from checks import simcommon as sc
+from checks import langcommon as lc
 
 TRUSTED_BASE = [
     "Coq 8.16.1 kernel (coqc)",
@@ -34,6 +35,22 @@ def alias_corpus(chk):
             chk.report("c03-alias", {"file": f, "source": open(f).read(), "impl": {k: v for k, v in r.items() if k in ("status", "cat", "msg", "stdout", "nq")},
                                      "how": "bloch <file>: two declarations end up denoting one simulator qubit"},
                        "aliasing program %s accepted: two qubit declarations share a simulator qubit" % os.path.basename(f))
+    return len(files)
+
+
+def fresh_qubit_corpus(chk):
+    """programs (corpus/C03run) in which a destructor, arbitrarily late in an object's teardown, applies x to a qubit it can still
+    reach and then measures a freshly declared qubit: the fresh qubit must read 0, or the run must stop with a Runtime diagnostic -
+    it reads 1 only if the two declarations share a simulator qubit"""
+    files = sorted(glob.glob(os.path.join(vlib.VERIF, "corpus", "C03run", "*.bloch")))
+    res = lc.run_impl([open(f).read() for f in files], opts="draws=0.5,0.5,0.5,0.5")
+    for f, r in zip(files, res):
+        out = r.get("stdout") or ""
+        ok = (r.get("status") == "ok" or (r.get("status") == "error" and r.get("cat") == "Runtime")) and "measured 1" not in out
+        if not ok:
+            chk.report("c03-fresh-qubit", {"file": f, "source": open(f).read(), "impl": {k: r.get(k) for k in ("status", "cat", "msg", "stdout", "signal")},
+                                           "how": "bloch <file>: a freshly declared qubit must measure 0"},
+                       "%s: %s %s" % (os.path.basename(f), r.get("status"), (out or r.get("msg") or "")[-100:]))
     return len(files)
 
 
@@ -81,6 +98,7 @@ def run(chk):
     chk.proofs()
     rng = chk.rng
     ncorp = alias_corpus(chk)
+    nfresh = fresh_qubit_corpus(chk)
     natt, nlife, att_kinds = alias_attempts(chk)
     progs = []
     for _ in range(200 if quick else 2500):
@@ -97,7 +115,7 @@ def run(chk):
     res, ndis = sc.check_progs(chk, progs, "c03", rng, aspects=("amps", "nq", "free-list", "sim-flags", "ev-flags", "last-measurement"),
                                extra=sc.impl_state_sane)
     reused = sum(1 for r in res if any(o[0] == 'K' for o in r["prog"].ops[:-1]))
-    chk.cov.update({"traces_validated_against_impl": len(progs), "alias_corpus_programs": ncorp, "alias_attempt_programs": natt, "alias_attempt_outcomes": att_kinds,
+    chk.cov.update({"traces_validated_against_impl": len(progs), "alias_corpus_programs": ncorp, "fresh_qubit_programs": nfresh, "alias_attempt_programs": natt, "alias_attempt_outcomes": att_kinds,
                     "handle_lifetime_programs": nlife, "histories_with_release": reused, "disagreements": ndis,
                     "rule": "random histories of declare (variable / array / object with qubit fields) / gate / cx / measure / reset / destroy-object "
                             "/ re-declare (index recycling), plus near-0/near-1 probabilities and reset of a certainly-1 qubit; after each run the "
